@@ -159,7 +159,9 @@ class UnwhitenedVariationalStrategy(_VariationalStrategy):
             predictive_mean = torch.add(
                 test_mean, induc_data_covar.transpose(-2, -1).matmul(self._mean_cache).squeeze(-1)
             )
-            predictive_covar = ZeroLinearOperator(test_mean.size(-1), test_mean.size(-1))
+            predictive_covar = ZeroLinearOperator(
+                test_mean.size(-1), test_mean.size(-1), dtype=test_mean.dtype, device=test_mean.device
+            )
             return MultivariateNormal(predictive_mean, predictive_covar)
 
         # Expand everything to the right size
